@@ -587,6 +587,9 @@ def gen_triples(rng):
 
 
 # ---------------------------------------------------------------------------------------------- LIS triples
+_PREV_INDEX = []        # the frame index checked before this one (kept alive and asked again between the queries of the next)
+
+
 def check_triples(rec, rep, LR, triples, kind, rng=None):
     n = len(triples)
     w0 = {'triples': [list(t) for t in triples[:40]], 'n': n, 'kind': kind}
@@ -620,7 +623,34 @@ def check_triples(rec, rep, LR, triples, kind, rng=None):
         fs.update(rng.randrange(total) for _ in range(120))
         frames = sorted(fs)
     bad = 0
+    frames = list(frames)
+    if rng is not None:
+        # frames are asked for in any order (a tail read, a reversing slice), and another index of the same process is asked
+        # in between: what an index answers depends on its own records alone
+        order = rng.choice(['ascending', 'descending', 'shuffled', 'tail-first'])
+        if order == 'descending':
+            frames.reverse()
+        elif order == 'shuffled':
+            rng.shuffle(frames)
+        elif order == 'tail-first':
+            k0 = len(frames) * 2 // 3
+            frames = frames[k0:] + frames[:k0]
+        rec.cls('frame-query-order:' + order)
+    prev = _PREV_INDEX[0] if _PREV_INDEX else None
     for f in frames:
+        if prev is not None and rng is not None and rng.random() < 0.3:
+            pr, pcum, ptriples = prev
+            pf = rng.randrange(pcum[-1]) if rng.random() < 0.5 else pcum[-1] - 1
+            pk = bisect.bisect_right(pcum, pf) - 1
+            rec.mon('other_index_interleaved')
+            try:
+                pg = tuple(pr.tellLrForFrame(pf))
+            except Exception as e:  # noqa
+                pg = '%s' % type(e).__name__
+            if pg != (ptriples[pk][0], pf - pcum[pk]):
+                rep('frame_to_record', 'other-index-differs', 'an index built earlier, asked between the queries of another: tellLrForFrame(%d)=%r expected %r' % (
+                    pf, pg, (ptriples[pk][0], pf - pcum[pk])), {'triples': [list(t) for t in ptriples[:40]], 'frame': pf, 'got': repr(pg), 'kind': 'earlier-index'})
+                prev = None
         rec.mon('frame_to_record')
         k = bisect.bisect_right(cum, f) - 1
         want = (triples[k][0], f - cum[k])
@@ -637,6 +667,8 @@ def check_triples(rec, rep, LR, triples, kind, rng=None):
                 bad += 1
         if bad >= 3:
             break
+    if total > 0:
+        _PREV_INDEX[:] = [(r, cum, list(triples))]
     for f in (total, total + 1, -1, total + 1000):
         rec.mon('frame_to_record')
         try:
